@@ -55,6 +55,9 @@ func newC14Stats() *c14Stats {
 func (s *c14Stats) limit(name string, limit, observed, attempts int) {
 	s.mu.Lock()
 	defer s.mu.Unlock()
+	if !strings.Contains(name, "-rate(") {
+		name = fmt.Sprintf("%s@%d", name, limit) // configurations with different values are kept apart
+	}
 	l := s.limits[name]
 	if l == nil {
 		l = &c14LimitStat{}
@@ -262,13 +265,17 @@ func c14ScriptString(s [][]c14ScriptOp) string {
 type c14Barrier struct {
 	n       int32
 	arrived atomic.Int32
+	armed   chan struct{}
 	open    atomic.Bool
 }
 
-func newC14Barrier(n int) *c14Barrier { return &c14Barrier{n: int32(n)} }
+func newC14Barrier(n int) *c14Barrier { return &c14Barrier{n: int32(n), armed: make(chan struct{})} }
 
+// wait blocks until every party has arrived, then spins (for a few hundred microseconds at
+// most) on a flag so that all parties leave within the same instant.
 func (b *c14Barrier) wait() {
 	b.arrived.Add(1)
+	<-b.armed
 	for !b.open.Load() {
 		runtime.Gosched()
 	}
@@ -280,6 +287,8 @@ func (b *c14Barrier) release() {
 	for b.arrived.Load() < b.n && time.Now().Before(deadline) {
 		time.Sleep(200 * time.Microsecond)
 	}
+	close(b.armed)
+	time.Sleep(300 * time.Microsecond) // parties wake up and reach the spin
 	b.open.Store(true)
 }
 
@@ -750,7 +759,7 @@ func c14GenRounds(e *Env) []c14Round {
 	recvOnly := small
 	recvOnly.Name, recvOnly.MaxWS = "receivers-only", 80
 
-	mult := e.Pick(2, 30)
+	mult := e.Pick(2, 40)
 	for m := 0; m < mult; m++ {
 		// clean classes first: sequential fills, connection limiter, size / rate probes, lifetime brackets
 		for k := 0; k < 2; k++ {
@@ -857,7 +866,7 @@ func (x *c14Run) partServer() {
 	var wg sync.WaitGroup
 	wg.Add(2)
 	go func() { defer wg.Done(); vk.ParallelDo(len(sleepy), 8, func(i int) { x.runRound(sleepy[i]) }) }()
-	go func() { defer wg.Done(); vk.ParallelDo(len(busy), 4, func(i int) { x.runRound(busy[i]) }) }()
+	go func() { defer wg.Done(); vk.ParallelDo(len(busy), 5, func(i int) { x.runRound(busy[i]) }) }()
 	wg.Wait()
 	e.R.SetExtra("server_rounds", map[string]any{"rounds": len(rounds), "configurations": len(cfgs), "decided": x.st.get("rounds_decided")})
 	// minimum observations
@@ -1022,7 +1031,7 @@ func (x *c14Run) roundSessions(r c14Round, srv *c14Server) {
 	} else {
 		passes := len(all) - rateRef
 		bound := c14RateBound(cfg.SessBurst, float64(cfg.SessPerMin)/60, elapsed)
-		x.st.limit("session-creates-rate", int(bound), passes, len(all))
+		x.st.limit(fmt.Sprintf("session-creates-rate(%d/min,burst %d; limit=bound of the last round)", cfg.SessPerMin, cfg.SessBurst), int(bound), passes, len(all))
 		obs["rate_passes"], obs["rate_bound"] = passes, bound
 		if float64(passes) > bound {
 			e.R.Violate("limit:session-creates-rate:exceeded", fmt.Sprintf("%d POST /session passed the per-IP limiter in %.1f ms; burst %d + %d/min allows at most %.2f", passes, c14ms(elapsed), cfg.SessBurst, cfg.SessPerMin, bound), caseSpec, obs)
@@ -1298,7 +1307,7 @@ func (x *c14Run) roundIPRateWS(r c14Round, srv *c14Server) {
 	caseSpec := map[string]any{"round": r, "flags": cfg.flags()}
 	obs := map[string]any{"round": r.key(), "joins": len(joins), "passed_limiter": passes, "refused_rate": t.Rate, "refused_connection_limit": t.ConnLimit, "upgraded": t.Upgraded, "elapsed_ms": c14ms(elapsed), "bound": bound}
 	x.st.sample("iprate", obs)
-	x.st.limit("ws-connects-rate", int(bound), passes, len(joins))
+	x.st.limit(fmt.Sprintf("ws-connects-rate(%d/min,burst %d; limit=bound of the last round)", cfg.ConnPerMin, cfg.ConnBurst), int(bound), passes, len(joins))
 	if cfg.ConnPerMin > 0 && float64(passes) > bound {
 		e.R.Violate("limit:ws-connects-rate:exceeded", fmt.Sprintf("%d upgrades passed the per-IP limiter in %.1f ms; burst %d + %d/min allows at most %.2f", passes, c14ms(elapsed), cfg.ConnBurst, cfg.ConnPerMin, bound), caseSpec, obs)
 	}
